@@ -69,7 +69,7 @@ type gstate struct {
 	hits map[string]int // hook point -> hits on this goroutine
 
 	// gate / jitter
-	parker     bool   // this goroutine parks at gate.parkPoint
+	parker     bool // this goroutine parks at gate.parkPoint
 	parkedOnce bool
 	gateResult string // "", "released", "timeout"
 	jitter     *prng.R
